@@ -157,7 +157,7 @@ func runC13(cfg *vh.Config) error {
 		Type:   "c13case",
 		Check:  "c13_check",
 	}
-	n := cfg.Scale(160, 1400)
+	n := cfg.Scale(140, 1400)
 	distinct := vh.Distinct{}
 	const perShard = 20
 	pairs := j5sgen.EditCorpus()
